@@ -30,7 +30,7 @@ RULE = (
     "coefficients and constants, scalar powers (exponents +-1, +-2, +-3, +-0.5, +-1.5, 0.7, nested powers, 1/x) over "
     "bases detJ, |detJ|, coefficients; indices from a pool of 3 physical + 3 reference Index objects or fixed "
     "integers, random association order, so sums nest and the same Index object is re-used free/bound; cells incl. "
-    "immersed manifolds (gdim>tdim). pipeline stratum: integrands of generated forms right before "
+    "immersed manifolds (gdim>tdim); in a quarter of the cases J and K belong to two different meshes of one kind. pipeline stratum: integrands of generated forms right before "
     "cancel_jacobian_products in the pass order of compute_form_data. One pass (or the composition) per case. "
     "non-trivial = the pass changed the expression; distinct = distinct (recipe, pass)."
 )
@@ -78,6 +78,13 @@ def synthetic(draw):
             return draw(st.integers(0, dim - 1))
         return draw(st.sampled_from(pool[: draw(st.sampled_from([2, 2, 3]))]))
 
+    # a second mesh of the same kind in a quarter of the cases: J and K of different meshes must not cancel
+    nmesh = draw(st.sampled_from([1, 1, 1, 2]))
+    world["nmesh"] = nmesh
+
+    def mesh_of():
+        return draw(st.integers(0, nmesh - 1))
+
     def scalar_base(depth=1):
         k = draw(st.sampled_from(["detJ", "detJ", "absdetJ", "f0", "f1", "c0", "pow"] if depth > 0 else ["detJ", "f0", "c0"]))
         if k == "detJ":
@@ -103,9 +110,9 @@ def synthetic(draw):
         p = lambda: idx(PHYS, g)
         r = lambda: idx(REFI, t)
         if k == "J":
-            return ["index", ["geo", "Jacobian"], [p(), r()]]
+            return ["index", ["geom", "Jacobian", mesh_of()], [p(), r()]]
         if k == "K":
-            return ["index", ["geo", "JacobianInverse"], [r(), p()]]
+            return ["index", ["geom", "JacobianInverse", mesh_of()], [r(), p()]]
         if k == "Ig":
             return ["index", ["eye", g], [p(), p()]]
         if k == "It":
@@ -283,6 +290,9 @@ def check_case(case):
                 I = Interp(env, order=order)
             else:
                 I = Interp(atoms_env(case, rep))
+                for k_, m_ in enumerate(b.meshes[1:]):
+                    rng2 = np.random.default_rng([int(case["env_seed"]), rep, 9, k_ + 1])
+                    I.geo_by_domain[repr(m_)] = Geometry.random(rng2, case["world"]["cell"], case["world"]["gdim"])
             G = Guard(I, min_den=1e-4)
             a = G.value(e)
             bv = eval_output(G, out)
@@ -295,4 +305,7 @@ def check_case(case):
         labels.append("changed")
     if w["gdim"] > TD[w["cell"]]:
         labels.append("manifold")
+    if w.get("nmesh", 1) > 1 and '"Jacobian", 1]' in __import__("json").dumps(case.get("expr", "")) + "" or \
+            (w.get("nmesh", 1) > 1 and '"JacobianInverse", 1]' in __import__("json").dumps(case.get("expr", ""))):
+        labels.append("two-meshes")
     return {"nontrivial": changed, "labels": labels}
